@@ -202,6 +202,19 @@ def ActionSpec.vetoes (s : ActionSpec) (i b e : Nat) : Bool :=
 def ActionSpec.throws (s : ActionSpec) (i b e : Nat) : Bool :=
   s.throwMod != 0 && (b + e + i) % s.throwMod == 0
 
+def RuleAct.spec (x : RuleAct) : ActionSpec :=
+  { kind := .apply, isBool := x.isBool, vetoMod := x.vetoMod, throwMod := x.throwMod, throwStd := x.throwStd }
+
+/-- `( apply_single< Actions >::match( i2, st... ) && ... )`: the actions are called in order with the action input
+    `[b, e)`; the first `false` ends the conjunction; an exception leaves it. -/
+def runActs (cx : Ctx) (sd : Nat) (b e : Cursor) : List RuleAct → Res × List Ev
+  | [] => (.ok, [])
+  | x :: xs =>
+    let ev := Ev.ruleApply x.id sd (cx.rep b) (cx.rep e)
+    if x.spec.throws x.id (cx.rep b).pos (cx.rep e).pos then (.thr (.foreign x.id x.throwStd), [ev])
+    else if x.spec.vetoes x.id (cx.rep b).pos (cx.rep e).pos then (.fail, [ev])
+    else ((runActs cx sd b e xs).1, ev :: (runActs cx sd b e xs).2)
+
 /-- `Rule::match< A, M, Action, Control >( in, st... )` for each kind. `k` is the loop budget. -/
 def body (cx : Ctx) (rec : Rec) (k : Nat) (kind : Kind) (a : AMode) (m : RMode) (env : Env) (st : St) : Out :=
   match kind with
@@ -334,6 +347,23 @@ def body (cx : Ctx) (rec : Rec) (k : Nat) (kind : Kind) (a : AMode) (m : RMode) 
   | .action fam c => rec c a m { env with fam := fam } st
   | .state _ c =>
     (rec c a m { env with sd := env.sd + 1 } st).map (stateScope cx env.sd true)
+  | .ifApply c acts =>
+    -- actions enabled and at least one action: a `required` guard of its own, the rule with actions, then the actions
+    -- with the matched span; otherwise just the rule
+    if a = .action ∧ acts ≠ [] then
+      (rec c .action .optional env st).map fun r1 =>
+        match r1.res with
+        | .ok =>
+          let ra := runActs cx env.sd st.cur r1.st.cur acts
+          (guardRestore .required st.cur { r1 with res := ra.1, raw := r1.raw ++ ra.2, surv := r1.surv ++ ra.2 }).dropOnFail
+        | _ => (guardRestore .required st.cur r1).dropOnFail
+    else rec c a m env st
+  | .control kc c => rec c a m { env with ctl := kc } st
+  | .applyR acts =>
+    if a = .action ∧ acts ≠ [] then
+      let ra := runActs cx env.sd st.cur st.cur acts
+      some ({ res := ra.1, st := st, raw := ra.2, surv := ra.2 } : Ret).dropOnFail
+    else some ⟨.ok, st, [], []⟩
 
 /-- The sub-rules a `match()` body of this kind can call (`rec` is applied to nothing else). -/
 def Kind.calls : Kind → List Nat
@@ -363,6 +393,9 @@ def Kind.calls : Kind → List Nat
   | .disable c => [c]
   | .action _ c => [c]
   | .state _ c => [c]
+  | .ifApply c _ => [c]
+  | .applyR _ => []
+  | .control _ c => [c]
 
 /-- `use_guard` of match.hpp: `match()` itself takes a `required` guard exactly when an
     `apply` or a `bool`-returning `apply0` will be called. -/
@@ -388,13 +421,43 @@ def actionOutcome (cx : Ctx) (i : Nat) (a : AMode) (act : ActionSpec) (saved e :
     else .accepts
   else .noAction
 
+/-- `Control< Rule >::failure( in, st... )`, called by `match()` outside its `unwind` guard and before the rewind guard
+    restores the cursor.  Under `must_if< Errors >::control` a rule that has a message raises from here
+    (`raise_on_failure`): the local failure becomes a global one blaming the rule at the current position. -/
+def failureHook (cx : Ctx) (i : Nat) (c : Cursor) (r : Ret) : Ret :=
+  if i ∈ cx.msgs then
+    { r with res := .thr (.parse i (cx.rep c)), raw := r.raw ++ [Ev.failure i (cx.rep c), Ev.raise i (cx.rep c)] }
+  else
+    { r with res := .fail, raw := r.raw ++ [Ev.failure i (cx.rep c)] }
+
+@[simp] theorem failureHook_st (cx : Ctx) (i : Nat) (c : Cursor) (r : Ret) : (failureHook cx i c r).st = r.st := by
+  unfold failureHook; split <;> rfl
+
+@[simp] theorem failureHook_surv (cx : Ctx) (i : Nat) (c : Cursor) (r : Ret) : (failureHook cx i c r).surv = r.surv := by
+  unfold failureHook; split <;> rfl
+
+theorem failureHook_res_ne_ok (cx : Ctx) (i : Nat) (c : Cursor) (r : Ret) : (failureHook cx i c r).res ≠ .ok := by
+  unfold failureHook; split <;> simp
+
+/-- The events of the failure hook preserve every trace predicate closed under concatenation that accepts a lone
+    `failure` and a lone `raise`. -/
+theorem failureHook_raw_closed {Q : List Ev → Prop} (app : ∀ {a b : List Ev}, Q a → Q b → Q (a ++ b))
+    {cx : Ctx} {i : Nat} {c : Cursor} {r : Ret} (hf : Q [Ev.failure i (cx.rep c)]) (hr : i ∈ cx.msgs → Q [Ev.raise i (cx.rep c)])
+    (h : Q r.raw) : Q (failureHook cx i c r).raw := by
+  unfold failureHook
+  split
+  · rename_i hm
+    exact app h (app (a := [_]) (b := [_]) hf (hr hm))
+  · exact app h hf
+
+
 /-- What match.hpp does after the rule body returned: the action call (only after a match),
     then `success` / `failure`, or `unwind` while an exception passes.  The cursor is not
     touched here; `saved` is `m.inputerator()`, the start of the match. -/
 def afterBody (cx : Ctx) (i : Nat) (a : AMode) (act : ActionSpec) (sd : Nat) (saved : Cursor) (r : Ret) : Ret :=
   match r.res with
   | .thr _ => { r with raw := r.raw ++ (if cx.unwind then [Ev.unwind i (cx.rep r.st.cur)] else []) }
-  | .fail => { r with raw := r.raw ++ [Ev.failure i (cx.rep r.st.cur)] }
+  | .fail => failureHook cx i r.st.cur r
   | .ok =>
     let e := cx.rep r.st.cur
     let aev := actEvent cx i act sd saved r.st.cur
@@ -403,14 +466,44 @@ def afterBody (cx : Ctx) (i : Nat) (a : AMode) (act : ActionSpec) (sd : Nat) (sa
     | .throws =>
       { r with res := .thr (.foreign i act.throwStd),
                raw := r.raw ++ [aev] ++ (if cx.unwind then [Ev.unwind i e] else []) }
-    | .vetoes => { r with res := .fail, raw := r.raw ++ [aev, Ev.failure i e] }
+    | .vetoes => failureHook cx i r.st.cur { r with res := .fail, raw := r.raw ++ [aev] }
     | .accepts => { r with raw := r.raw ++ [aev, Ev.success i e], surv := r.surv ++ [aev] }
+
+/-- Does control family `k` define `unwind()`?  Family 0 is the one `parse` was given; the harness's second family does. -/
+def Ctx.unwindOf (cx : Ctx) (k : Nat) : Bool := if k = 0 then cx.unwind else true
+
+/-- The same run seen by the hooks of control family `k`. -/
+def Ctx.withCtl (cx : Ctx) (k : Nat) : Ctx := { cx with unwind := cx.unwindOf k, msgs := if k = 0 then cx.msgs else [] }
+
+theorem Ctx.mem_withCtl_msgs {cx : Ctx} {k i : Nat} (h : i ∈ (cx.withCtl k).msgs) : i ∈ cx.msgs := by
+  unfold Ctx.withCtl at h
+  simp only at h
+  split at h
+  · exact h
+  · simp at h
+
+theorem Ctx.withCtl_msgs_nil {cx : Ctx} (h : cx.msgs = []) (k : Nat) : (cx.withCtl k).msgs = [] := by
+  unfold Ctx.withCtl; simp only; split <;> simp [h]
+
+theorem failureHook_plain (cx : Ctx) (h : cx.msgs = []) (i : Nat) (c : Cursor) (r : Ret) :
+    failureHook cx i c r = { r with res := .fail, raw := r.raw ++ [Ev.failure i (cx.rep c)] } := by
+  simp [failureHook, h]
+
+@[simp] theorem Ctx.withCtl_rep (cx : Ctx) (k : Nat) (c : Cursor) : (cx.withCtl k).rep c = cx.rep c := rfl
+@[simp] theorem Ctx.withCtl_zero (cx : Ctx) : cx.withCtl 0 = cx := by simp [Ctx.withCtl, Ctx.unwindOf]
+
+@[simp] theorem Ctx.withCtl_unwind (cx : Ctx) (k : Nat) : (cx.withCtl k).unwind = cx.unwindOf k := rfl
+@[simp] theorem Ctx.withCtl_g (cx : Ctx) (k : Nat) : (cx.withCtl k).g = cx.g := rfl
+@[simp] theorem actEvent_withCtl (cx : Ctx) (k i : Nat) (act : ActionSpec) (sd : Nat) (b e : Cursor) :
+    actEvent (cx.withCtl k) i act sd b e = actEvent cx i act sd b e := rfl
+@[simp] theorem actionOutcome_withCtl (cx : Ctx) (k i : Nat) (a : AMode) (act : ActionSpec) (b e : Cursor) :
+    actionOutcome (cx.withCtl k) i a act b e = actionOutcome cx i a act b e := rfl
 
 /-- The `enter` / `exit` observations the harness control makes around `Control< Rule >::match`;
     a failed or aborted invocation contributes no surviving action. -/
-def bracket (cx : Ctx) (i : Nat) (a : AMode) (m : RMode) (st : St) (r : Ret) : Ret :=
+def bracket (cx : Ctx) (i : Nat) (a : AMode) (m : RMode) (kc : Nat) (st : St) (r : Ret) : Ret :=
   let r := r.dropOnFail
-  { r with raw := Ev.enter i a m (cx.rep st.cur) :: r.raw ++ [Ev.exit i r.res.code (cx.rep r.st.cur)] }
+  { r with raw := Ev.enter i a m (cx.rep st.cur) kc :: r.raw ++ [Ev.exit i r.res.code (cx.rep r.st.cur)] }
 
 /-- `tao::pegtl::match< Rule, A, M, Action, Control >( in, st... )` (match.hpp). -/
 def nodeCore (cx : Ctx) (rec : Rec) (k : Nat) (i : Nat) (nd : Node) (a : AMode) (m : RMode) (env : Env) (st : St) : Out :=
@@ -420,8 +513,8 @@ def nodeCore (cx : Ctx) (rec : Rec) (k : Nat) (i : Nat) (nd : Node) (a : AMode) 
     let act := cx.actOf env i nd
     let ug := useGuard a act
     (body cx rec k nd.kind a (if ug then .optional else m) env st).map fun r =>
-      let r := afterBody cx i a act env.sd st.cur r
-      let r := { r with raw := Ev.start i (cx.rep st.cur) :: r.raw }
+      let r := afterBody (cx.withCtl env.ctl) i a act env.sd st.cur r
+      let r := { r with raw := Ev.start i (cx.rep st.cur) env.ctl :: r.raw }
       guardRestore (if ug then .required else .optional) st.cur r
 
 /-- Ids under which the harness registers the types `limit_depth< N >` / `limit_bytes< N >`
@@ -466,7 +559,8 @@ def nodeCall (cx : Ctx) (rec : Rec) (k : Nat) (i : Nat) (a : AMode) (m : RMode) 
        (nodeCore cx rec k i nd a m { env with sd := env.sd + 1 } st).map (stateScope cx env.sd (decide (a = AMode.action)))
      | .changeActionAndState fam _ =>
        (rec i a m { env with fam := fam, sd := env.sd + 1 } st).map (stateScope cx env.sd (decide (a = AMode.action)))
-     ).map (bracket cx i a m st)
+     | .changeControl kc => nodeCore cx rec k i nd a m { env with ctl := kc } st
+     ).map (bracket cx i a m env.ctl st)
 
 /-- The matcher with fuel. -/
 def run (cx : Ctx) (fuel : Nat) (i : Nat) (a : AMode) (m : RMode) (env : Env) (st : St) : Out :=
